@@ -66,14 +66,14 @@ def source(kind="code"):
                 desc="a filter",
                 fields=[A("min_val", "Int", 0, pyname="min_py", desc="minimum"), A("tags", "[String!]", ["t"]), A("hide_in", "HideIn")],
             ),
-            T("input", "HideIn", fields=[A("z", "Int"), A("y", "Int", 2)]),
-            T("object", "Mut", fields=[F("set_it", "Int", [A("v", "Int!")], resolver=OK + "#set"), F("other", "Int")]),
+            T("input", "HideIn", fields=[A("z", "Int"), A("y", "Int", 2), A("nul", "Int", None)]),
+            T("object", "Mut", fields=[F("set_it", "Int", [A("v", "Int!"), A("note", "String", None)], resolver=OK + "#set"), F("other", "Int")]),
             T("object", "Sub", fields=[F("tick", "Int", [A("every", "Int", 1)], sub="sub:tick", resolver=OK + "#tick"), F("tock", "Int")]),
             T("scalar", "Stamp", desc="a scalar"),
             T("object", "Gone", fields=[F("g", "Int")], applied=["@remove"]),
         ],
         "directives": [
-            {"name": "tag", "desc": "tag it", "locations": ["FIELD", "FIELD_DEFINITION"], "args": [A("tag_name", "String", "x", desc="the tag")]},
+            {"name": "tag", "desc": "tag it", "locations": ["FIELD", "FIELD_DEFINITION"], "args": [A("tag_name", "String", "x", desc="the tag"), A("why", "String", None)]},
             {
                 # arguments typed by an input object, an enum, a list of input objects and a custom scalar:
                 # directive argument types must be re-pointed / filtered like every other reference
